@@ -303,6 +303,7 @@ func c17Isolate(r *Run) {
 				s.trip("b", "a")
 			},
 		},
+		c17DialledFails("isolate.dialled.failread"),
 		c17Scenario{
 			name: "isolate.dialerr", ic: pxIcept{Kind: "none"},
 			setup: live,
@@ -352,6 +353,24 @@ func c17Isolate(r *Run) {
 		},
 	)
 	c17RunAll(r, scs)
+}
+
+// c17DialledFails: a peer the proxy dialled on demand; when ITS connection fails it is removed like any
+// other, and the next envelope for the name dials again and is delivered on the new connection.
+func c17DialledFails(name string) c17Scenario {
+	return c17Scenario{
+		name: name, ic: pxIcept{Kind: "none"},
+		setup: func(w *pxWorld) { w.attach("a", false); w.attach("b", false); w.dialable["d1"] = true },
+		body: func(s *c17Run) {
+			s.trip("a", "b")
+			s.fwd("a", "d1") // dialled: heap object 2
+			s.trip("d1", "a")
+			s.do(func() bool { return s.w.failRead(2) })
+			s.trip("a", "b")
+			s.fwd("a", "d1") // dialled again: heap object 3
+			s.trip("d1", "b")
+		},
+	}
 }
 
 // ---------------------------------------------------------------- reattach
